@@ -107,6 +107,7 @@ type phaseJ struct {
 	Acts   []string `json:"acts"` // start | call | panic | ret
 	Gate   bool     `json:"gate"`
 	Timer  bool     `json:"timer"`
+	Hold   bool     `json:"hold,omitempty"` // a call of the wrapped service's Close() does not return during this phase
 	Yields int      `json:"yields"` // runtime.Gosched() calls between actions (scheduling jitter; not in the model)
 }
 
@@ -168,12 +169,13 @@ func runCase(t *testing.T, c *caseJ) {
 		default:
 			in = newScripted(true)
 		}
-		w := &gated{in: in, g: newGate()}
+		w := &gated{in: in, g: newGate(), hc: newGate()}
 		rec := service.NewRecoverer(w, log.New(io.Discard, "", 0))
 		var startRes, closeRes atomic.Int32 // 0 = not returned
 		started, called := false, false
 		for _, ph := range c.Phases {
 			w.g.set(ph.Gate)
+			w.hc.set(!ph.Hold)
 			for _, a := range ph.Acts {
 				switch a {
 				case "start":
@@ -241,6 +243,7 @@ func runCase(t *testing.T, c *caseJ) {
 		}
 		// stop whatever is left so that the bubble can end (a watcher that is blocked for ever is absorbed by `bubble`)
 		w.g.set(true)
+		w.hc.set(true)
 		in.kill()
 		if !called {
 			_ = rec.Close()
@@ -276,6 +279,15 @@ func boundaryCases() []caseJ {
 		}
 		add("close-before-service-start", ph(false, false, "start"), ph(false, false, "call"), settle)
 		add("close-during-cooldown", ph(true, false, "start"), ph(true, false, "panic"), ph(true, false, "call"), settle)
+		// the cool-down ends while recoverer.Close is still inside the wrapped service's Close
+		hold := func(p phaseJ) phaseJ { p.Hold = true; return p }
+		add("slow-close-during-cooldown", ph(true, false, "start"), ph(true, false, "panic"), hold(ph(true, false, "call")), hold(ph(true, true)), settle)
+		add("slow-close-during-cooldown", ph(true, false, "start"), hold(ph(true, false, "panic", "call")), hold(ph(true, true)), settle)
+		add("slow-close-during-cooldown", ph(true, false, "start"), hold(ph(true, false, "call", "panic")), hold(ph(true, true)), settle)
+		add("slow-close-during-cooldown", ph(true, false, "start"), ph(true, false, "panic"), hold(ph(true, true, "call")), settle)
+		add("slow-close-while-running", ph(true, false, "start"), hold(ph(true, false, "call")), settle)
+		add("slow-close-restart-held", ph(true, false, "start"), ph(false, true, "panic"), hold(ph(false, false, "call")), hold(ph(true, false)), settle)
+		add("slow-close-before-start", hold(ph(true, false, "call")), hold(ph(true, false, "start")), settle)
 		add("panic-recovers", ph(true, false, "start"), ph(true, true, "panic"))
 		add("panic-recovers-close", ph(true, false, "start"), ph(true, true, "panic"), ph(true, false, "call"), settle)
 		add("panic-twice", ph(true, false, "start"), ph(true, true, "panic"), ph(true, true, "panic"))
@@ -336,6 +348,7 @@ func randomCase(r *Rng) caseJ {
 			p.Acts = append(p.Acts, "call")
 			called = true
 		}
+		p.Hold = r.Chance(1, 5)
 		// random order of the actions of the phase
 		perm := r.Perm(len(p.Acts))
 		acts := make([]string, len(p.Acts))
@@ -359,7 +372,7 @@ func coqAct(a string) string {
 }
 func coqCase(c caseJ) string {
 	phs := CoqList(c.Phases, func(p phaseJ) string {
-		return fmt.Sprintf("mkPhase %s %s %s", CoqList(p.Acts, coqAct), CoqBool(p.Gate), CoqBool(p.Timer))
+		return fmt.Sprintf("mkPhase %s %s %s %s", CoqList(p.Acts, coqAct), CoqBool(p.Gate), CoqBool(p.Timer), CoqBool(p.Hold))
 	})
 	o := c.Obs
 	return fmt.Sprintf("mkCase %s %s (mkObs %d %d %d %d %s)", coqKind(c.Kind), phs, o.Close, o.Start, o.G, o.Starts, CoqBool(o.Late))
@@ -376,6 +389,7 @@ type plObs struct {
 	Left        []string `json:"left,omitempty"`
 	Subs        int      `json:"subscriptions_left"`
 	CallsAfter  int      `json:"provider_calls_after_close"`
+	InCallAfter int      `json:"calls_still_in_progress_once_close_returned"`
 	Verdict     string   `json:"verdict"` // ok | close_before_service_start | violation: ...
 	BaseNonZero bool     `json:"base_nonzero,omitempty"`
 }
@@ -387,7 +401,7 @@ func classify(o *plObs) {
 		o.Verdict = "violation: plugin.Close did not return"
 		return
 	}
-	if len(o.Left) == 0 && o.Subs == 0 && o.CallsAfter == 0 {
+	if len(o.Left) == 0 && o.Subs == 0 && o.CallsAfter == 0 && o.InCallAfter == 0 {
 		o.Verdict = "ok"
 		return
 	}
@@ -438,6 +452,10 @@ func classify(o *plObs) {
 		o.Verdict = "violation: providers still called after Close"
 		return
 	}
+	if o.InCallAfter > 0 && nTick == 0 && nRec == 0 {
+		o.Verdict = "violation: a provider / pipeline call that was in progress at Close is still running (its context not cancelled) once Close has returned"
+		return
+	}
 	o.Verdict = "close_before_service_start"
 }
 
@@ -452,6 +470,7 @@ type plCase struct {
 	Wait     bool          // synctest.Wait() before Close
 	Sleep    time.Duration // virtual time before Close
 	RunDelay time.Duration // virtual duration of one pipeline run
+	ProvDelay time.Duration // virtual duration of one log-provider call
 	OneP     bool          // GOMAXPROCS(1): Close runs before any service goroutine
 }
 
@@ -462,7 +481,7 @@ func runPlCase(t *testing.T, c plCase) *plObs {
 	}
 	bubble(t, func(t *testing.T) {
 		o.BaseNonZero = len(repoGoroutines()) != 0
-		nd := newNode18(t, c.RunDelay)
+		nd := newNode18(t, c.RunDelay, c.ProvDelay)
 		for i := 0; i < c.Yields; i++ {
 			runtime.Gosched()
 		}
@@ -488,6 +507,10 @@ func runPlCase(t *testing.T, c plCase) *plObs {
 			go doClose()
 		}
 		synctest.Wait()
+		if ret.Load() {
+			// Close has returned and every goroutine is durably blocked: a call that is still sleeping was not cancelled
+			o.InCallAfter = int(nd.Run.inRun.Load() + nd.Logs.inCall.Load())
+		}
 		time.Sleep(30 * time.Second) // in-flight pipeline runs and tick goroutines finish
 		synctest.Wait()
 		calls := totalCalls(nd.S)
@@ -517,6 +540,9 @@ func plCases() []plCase {
 	}
 	for _, ms := range []int{1200, 2500, 3700} {
 		cs = append(cs, plCase{Name: fmt.Sprintf("during-pipeline-run-at-%dms", ms), Wait: true, Sleep: time.Duration(ms) * time.Millisecond, RunDelay: 2 * time.Second})
+	}
+	for _, ms := range []int{1200, 2500, 3700} {
+		cs = append(cs, plCase{Name: fmt.Sprintf("during-provider-call-at-%dms", ms), Wait: true, Sleep: time.Duration(ms) * time.Millisecond, ProvDelay: 2 * time.Second})
 	}
 	return cs
 }
